@@ -27,6 +27,19 @@ Theorem C23_reads_unordered :
     only_reads l m -> only_reads l n -> ~ In (m, n, k) (edges None l).
 Proof. intros l m n k. exact (queue_reads_unordered None l m n k I). Qed.
 
+(** With nodes in program order every edge points from an earlier instruction to a later one. *)
+Theorem C23_edges_forward :
+  forall (l : list (N * acc)) (m n : N) (k : acc),
+    nodes_sorted l -> In (m, n, k) (edges None l) -> (m < n)%N.
+Proof. intros l m n k. exact (queue_edges_forward None l m n k I). Qed.
+
+(** Two reads with no write between them are not ordered, even transitively: if every access by a
+    node in [m, n] is a read, no path of memory edges leads from [m] to [n]. *)
+Theorem C23_reads_no_path :
+  forall (l : list (N * acc)) (m n : N),
+    nodes_sorted l -> reads_between l m n -> ~ clos_trans N (erel (edges None l)) m n.
+Proof. intros l m n. exact (queue_reads_no_path None l m n I). Qed.
+
 (** The instance checker run on the implementation's edges decides exactly these clauses. *)
 Theorem C23_checker_sound :
   forall (l : list (N * acc)) (E : list edge),
